@@ -141,9 +141,7 @@ def ptokStr : PTok → String
 
 def presStr : PRes → String
   | .ok e rest => s!"ok {rest.length} {pexprStr e}"
-  | .nilExpr rest => s!"nil {rest.length}"
   | .err rest => s!"err {rest.length}"
-  | .panic => "panic"
   | .fuel => "fuel"
 
 def wfB : PExpr → Bool
